@@ -117,6 +117,11 @@ def _comp(prop, tier, seed, t0, text, extra_specs=()):
     specs = [('harness.comp', 'comp_task', (prop, m, w, known)) for m in isa.BASE]
     pspecs, ntl, gap_bits = _product_specs(prop, tier, seed)
     specs += pspecs
+    if prop in ('C12', 'C20'):
+        # pseudo-instructions whose register operands are alias constants, with -c: accepted, and what they do is
+        # what they do without -c (the C05 harness, reported here)
+        from .pseudo import ALL as _PS, LABELLED as _PL
+        specs += [('harness.pseudo', 'pseudo_task', (nm, '-', True, 34, 22, prop)) for nm in _PS if nm not in _PL]
     text += '; plus %d layout templates (natural alignment: no odd-sized data or odd align in front of code) in both modes with shared gaps (0..2^%d) and li values' % (ntl, gap_bits)
     res = pmap(specs)
     return finish(prop, tier, seed, res, t0,
@@ -178,12 +183,16 @@ def run_C03(tier, seed, t0):
     # the labels argument: a dictionary that already holds the labels of an earlier program
     from .purity import SEQS
     extra = [('harness.purity', 'sequence_task', (i, 'shared-dicts', 'C03')) for i, q in enumerate(SEQS)
-             if q[0] in ('ok_then_ok', 'same_names', 'compress_then_plain')]
+             if q[0] in ('ok_then_ok', 'same_names', 'compress_then_plain', 'compress_both_reordered_labels')]
     return _run_layout('C03', tier, seed, t0, extra, dict(labels_argument='three two-call histories that pass the same labels dictionary to both calls'))
 
 
 def run_C08(tier, seed, t0):
-    return _run_layout('C08', tier, seed, t0)
+    # label arithmetic when the caller's labels dictionary already holds the same names from an earlier program
+    from .purity import SEQS
+    extra = [('harness.purity', 'sequence_task', (i, 'shared-dicts', 'C08')) for i, q in enumerate(SEQS)
+             if q[0] in ('same_names', 'compress_then_plain', 'compress_both_reordered_labels')]
+    return _run_layout('C08', tier, seed, t0, extra, dict(labels_argument='two-call histories that pass the same labels dictionary to both calls'))
 
 
 def run_C09(tier, seed, t0):
@@ -221,6 +230,8 @@ def run_C10(tier, seed, t0):
     specs += string_specs(tier)
     from .strings import symfile_specs
     specs += symfile_specs('string')       # the same through read_lines and the whole assemble(), source in a file
+    from .history import BY_PROP as _HIST
+    specs += [('harness.history', 'history_task', ('C10', sn, 40 if tier == 'thorough' else 34)) for sn in _HIST['C10']]
     specs += [('harness.strings', 'string_task', (tier,))]
     res = pmap(specs)
     shapes = SHAPES_THOROUGH if tier == 'thorough' else SHAPES_QUICK
@@ -336,9 +347,9 @@ def run_C15(tier, seed, t0):
     from .errors import FAULTS
     specs = []
     for f in FAULTS:
-        combos = [(0, 'text'), (len(f[1]) % 9 + 1, 'text'), (10, 'text'), (1, 'included'), (7, 'after-include'), (5, 'blanks')]
+        combos = [(0, 'text'), (len(f[1]) % 9 + 1, 'text'), (10, 'text'), (1, 'included'), (7, 'after-include'), (5, 'blanks'), (5, 'blanks-file'), (1, 'blanks-included')]
         if tier == 'thorough':
-            combos = [(p, 'text') for p in range(0, 11)] + [(p, 'file') for p in (0, 5, 10)] + [(p, 'included') for p in range(3)] + [(p, 'after-include') for p in (4, 7, 10)] + [(p, 'blanks') for p in (0, 5, 10)]
+            combos = [(p, 'text') for p in range(0, 11)] + [(p, 'file') for p in (0, 5, 10)] + [(p, 'included') for p in range(3)] + [(p, 'after-include') for p in (4, 7, 10)] + [(p, 'blanks') for p in (0, 5, 10)] + [(p, 'blanks-file') for p in (0, 5, 10)] + [(p, 'blanks-included') for p in range(4)]
         for pos, where in combos:
             if f[0] in ('include_missing', 'include_bytes_missing') and where == 'text' and pos not in (0, 10):
                 pass
@@ -366,7 +377,7 @@ def run_C16(tier, seed, t0):
     # the same dictionary objects for both calls: only where the second program defines every name it
     # uses (what the caller leaves in a dictionary it passes again is otherwise a legitimate input)
     specs += [('harness.purity', 'sequence_task', (i, 'shared-dicts')) for i, q in enumerate(SEQS)
-              if q[0] in ('ok_then_ok', 'fail_then_ok', 'same_names', 'compress_then_plain')]
+              if q[0] in ('ok_then_ok', 'fail_then_ok', 'same_names', 'compress_then_plain', 'compress_both_reordered_labels')]
     specs += [('harness.purity', 'incdirs_task', (s,)) for s in ('B', 'C')]
     specs += [('harness.purity', 'hashseed_task', (t_,)) for t_ in ('depth2_middle', 'twice_and_last')]
     from .history import BY_PROP as _HIST
